@@ -137,3 +137,58 @@ def startup(options, flags, timeout=20):
                 'rpc_calls': [c.get('method') for c in ld.calls], 'stderr': err.decode(errors='replace')}
     finally:
         ld.close()
+
+def burst(n, timeout=20):
+    """Start the plugin, then send n htlc_accepted requests (plain forwards: answered with `continue` at once) in a
+    single write and collect the replies for a few seconds."""
+    binp = build_plugin()
+    ld = FakeLightningd()
+    try:
+        p = subprocess.Popen([binp], stdin=subprocess.PIPE, stdout=subprocess.PIPE, stderr=subprocess.PIPE)
+        getmanifest = {'jsonrpc': '2.0', 'id': 'm', 'method': 'getmanifest', 'params': {'allow-deprecated-apis': False}}
+        init = {'jsonrpc': '2.0', 'id': 'i', 'method': 'init', 'params': {'options': {}, 'configuration': {
+            'lightning-dir': ld.dir, 'rpc-file': ld.path, 'startup': True, 'network': 'regtest', 'feature_set': {}}}}
+        p.stdin.write((json.dumps(getmanifest) + '\n\n' + json.dumps(init) + '\n\n').encode())
+        p.stdin.flush()
+        buf = b''
+        replies = []
+        def pump(seconds, until=None):
+            nonlocal buf
+            t0 = time.time()
+            while time.time() - t0 < seconds:
+                r, _, _ = select.select([p.stdout], [], [], 0.1)
+                if r:
+                    d = os.read(p.stdout.fileno(), 65536)
+                    if d:
+                        buf += d
+                        while b'\n\n' in buf:
+                            msg, buf = buf.split(b'\n\n', 1)
+                            try:
+                                j = json.loads(msg.decode())
+                            except Exception:
+                                replies.append({'garbled': msg[:80].decode(errors='replace')})
+                                continue
+                            if 'id' in j:
+                                replies.append(j)
+                if until is not None and until():
+                    return
+        pump(timeout, lambda: any(r.get('id') == 'i' for r in replies))
+        ids = ['r%d' % k for k in range(n)]
+        reqs = b''
+        for rid in ids:
+            req = {'jsonrpc': '2.0', 'id': rid, 'method': 'htlc_accepted', 'params': {
+                'onion': {'payload': '', 'short_channel_id': '1x2x3', 'forward_msat': 1000, 'total_msat': 1000},
+                'htlc': {'short_channel_id': '4x5x6', 'id': 1, 'amount_msat': 1000, 'cltv_expiry': 500, 'cltv_expiry_relative': 100,
+                         'payment_hash': '00' * 32}}}
+            reqs += (json.dumps(req) + '\n\n').encode()
+        p.stdin.write(reqs)
+        p.stdin.flush()
+        pump(4)
+        try:
+            p.kill()
+        except Exception:
+            pass
+        return {'outcome': 'ok', 'request_ids': ids, 'reply_ids': [r.get('id') for r in replies if r.get('id') in ids],
+                'garbled': [r for r in replies if 'garbled' in r]}
+    finally:
+        ld.close()
